@@ -163,6 +163,13 @@ class Compiler:
                 if isinstance(n.left, ast.Name) and n.left.id in self.consts:
                     isnone = self.consts[n.left.id] is None
                     return ('const', int(isnone if t is ast.Is else not isnone))
+                if isinstance(n.left, ast.Attribute):
+                    try:
+                        o = self.lookup(attr_path(n.left))
+                    except Unsupported:
+                        o = None
+                    if o is not None and o.kind in ('lock', 'sem', 'cond', 'pycond'):
+                        return ('const', int(t is ast.IsNot))       # the object exists in this scenario (not None)
                 e = ('eq', self.expr(n.left), ('const', 0))
                 return e if t is ast.Is else ('not', e)
             if t not in ops:
@@ -180,8 +187,8 @@ class Compiler:
             if path.endswith('._semlock._is_zero'):
                 o = self.lookup(path[:-len('._semlock._is_zero')])
                 return ('semzero', o.name)
-            if path == 'ForkingPickler.loads':
-                return ('const', 0)     # unpickling is outside the model (C12/C13 own serialisation)
+            if path in ('ForkingPickler.loads', 'ForkingPickler.dumps'):
+                return ('const', 0)     # (un)pickling is outside the model (C12/C13 own serialisation)
         raise Unsupported('expression %s' % ast.dump(n)[:100])
 
     def lookup(self, path):
@@ -268,6 +275,29 @@ class Compiler:
                 if o.kind == 'buffer':
                     self.asm.emit('sem_clear', o.name)
                     return ('const', 0)
+            if path in ('ForkingPickler.loads', 'ForkingPickler.dumps'):
+                for a0 in n.args:
+                    self.value(a0)          # the argument may be a call with effects (get_payload()); (un)pickling itself is outside
+                return ('const', 0)
+            if path in self.env and self.env[path].kind == 'pipe_send_framed':
+                # connection.send_bytes as two writes (header, body): another writer in between corrupts the framing
+                o = self.env[path]
+                d = self.asm.tmp('hdr')
+                self.asm.emit('sem_acq', o.frame, False, False, d)
+                self.asm.emit('assert', ('loc', d), 'no other writer is in the middle of a message')
+                self.asm.emit('sem_rel', o.frame)
+                self.asm.emit('sem_rel', o.name)
+                return ('const', 0)
+            if path in self.env and self.env[path].kind == 'pipe_recv_framed':
+                # connection.recv_bytes as two reads (header, body); blocks until a whole message is there
+                o = self.env[path]
+                d = self.asm.tmp('hdr')
+                d2 = dst or self.asm.tmp('msg')
+                self.asm.emit('sem_acq', o.frame, False, False, d)
+                self.asm.emit('assert', ('loc', d), 'no other reader is in the middle of a message')
+                self.asm.emit('sem_acq', o.name, True, False, d2)
+                self.asm.emit('sem_rel', o.frame)
+                return ('loc', d2)
             if path in self.env and self.env[path].kind == 'pipe_recv':
                 d = dst or self.asm.tmp('msg')
                 self.asm.emit('sem_acq', self.env[path].name, True, False, d)      # blocks until a whole message is in the pipe
